@@ -1813,6 +1813,17 @@ def gen_spec(rng, quick=True, wide=False, p_speed=0.12):
     net = G.random_network(rng, quick=True, force={"n_nodes": n})
     net["options"]["trials"] = 40
     controls = gen_controls(rng, net, p_speed=p_speed)
+    juncs = [nd["name"] for nd in net["nodes"] if nd["type"] == "junction"]
+    if juncs and rng.random() < 0.2:
+        # a dead end behind a pipe that starts CLOSED (isolated junction), reopened by a control in half of the cases
+        pat = next(iter(net["patterns"]), None)
+        net["nodes"].append({"name": "JX", "type": "junction", "elevation": 2.0,
+                             "demands": [{"base": 0.0005, "pattern": pat, "category": None}]})
+        net["links"].append({"name": "PX", "type": "pipe", "start": rng.choice(juncs), "end": "JX", "length": 120.0, "diameter": 0.15,
+                             "roughness": 100.0, "minor_loss": 0.0, "check_valve": False, "initial_status": "CLOSED"})
+        if rng.random() < 0.5:
+            hyd = net["options"]["hydraulic_timestep"]
+            controls.append({"kind": "time", "time": hyd * rng.choice([1, 2]), "action": {"link": "PX", "attr": "status", "value": 1}})
     kind, over = vary_options(rng, net)
     return {"net": net, "controls": controls, "opt_kind": kind, "opt_overrides": over}
 
@@ -1889,6 +1900,19 @@ def scenario_specs(rng):
            {"kind": "rule", "cond": {"t": "simtime", "op": ">=", "thr": 3 * hyd}, "then": [{"link": "V1", "attr": "setting", "value": 60.0}],
             "else": [], "priority": 2, "name": "late"}]
     out.append(("pump-tank-level", {"net": net, "controls": ctr}))
+    # a dead-end junction behind a pipe that is CLOSED from the start and never reopened (isolated for the whole run), and one
+    # that a control isolates for part of the run only
+    for mode in ("permanent", "temporary"):
+        net = _small_net(pump=rng.choice(["POWER", "HEAD"]), valve=None, steps=4)
+        net["nodes"].append({"name": "J9", "type": "junction", "elevation": 4.0,
+                             "demands": [{"base": 0.001, "pattern": "pat0", "category": None}]})
+        net["links"].append({"name": "P9", "type": "pipe", "start": "J3", "end": "J9", "length": 150.0, "diameter": 0.15, "roughness": 100.0,
+                             "minor_loss": 0.0, "check_valve": False, "initial_status": "CLOSED" if mode == "permanent" else "OPEN"})
+        ctr = [{"kind": "time", "time": hyd * 2, "action": {"link": "P5", "attr": "status", "value": 0}}]
+        if mode == "temporary":
+            ctr += [{"kind": "time", "time": hyd * 1, "action": {"link": "P9", "attr": "status", "value": 0}},
+                    {"kind": "time", "time": hyd * rng.choice([3, 4]), "action": {"link": "P9", "attr": "status", "value": 1}}]
+        out.append(("isolated-junction-" + mode, {"net": net, "controls": ctr, "same_sim": True}))
     # option sets the simulators adjust internally: report step larger than / smaller than / not a multiple of the hydraulic step,
     # 'ALL', pattern step != hydraulic step, rule step variants (one directed model of each kind per run)
     for kind in OPTION_KINDS[:-1]:
@@ -1966,6 +1990,8 @@ def spec_features(spec):
             f.add("valve-initial-" + l["initial_status"].lower())
         if l.get("check_valve"):
             f.add("cv")
+        if l["type"] == "pipe" and l.get("initial_status") == "CLOSED":
+            f.add("pipe-initially-closed")
     for n in net["nodes"]:
         if n.get("leak"):
             f.add("leak:" + n["type"])
@@ -2094,15 +2120,21 @@ class quiet_fds:
         return False
 
 
-def run_wntr(wntr, wn, hw="default"):
-    """outcome of one WNTRSimulator run: ('ok', tables) | ('raised', type, message)"""
+def run_wntr(wntr, wn, hw="default", holder=None):
+    """outcome of one WNTRSimulator run: ('ok', tables) | ('raised', type, message).
+    `holder` (a dict) keeps the simulator OBJECT: a second call with the same holder reuses it (sim.run_sim(); reset; sim.run_sim())"""
     import warnings
     import numpy as np
 
     with warnings.catch_warnings(), quiet_fds():
         warnings.simplefilter("ignore")
         try:
-            sim = wntr.sim.WNTRSimulator(wn)
+            if holder is not None and holder.get("sim") is not None:
+                sim = holder["sim"]
+            else:
+                sim = wntr.sim.WNTRSimulator(wn)
+                if holder is not None:
+                    holder["sim"] = sim
             res = sim.run_sim(HW_approx=hw)
         except Exception as e:  # the statement covers failing runs too: the outcome must repeat
             return ("raised", type(e).__name__, str(e)[:160])
@@ -2646,6 +2678,27 @@ class Judge:
             self.count("third-cycle:" + ("same" if d3 is None else "differs"))
             if d3 is not None and diff12 is None:
                 out.append(("rerun-differs-after-reset", "third run / reset / run cycle gives different results: " + d3, {"cycle": 3}))
+        # ---- the SAME simulator object reused over run / reset / run (state kept on the simulator, e.g. the sets of
+        # previously isolated junctions / links, must not leak into the rerun)
+        closed0 = any(l["type"] == "pipe" and l.get("initial_status") == "CLOSED" for l in spec["net"]["links"])
+        if spec.get("same_sim") or (not light and (closed0 or len(spec.get("controls", [])) % 2 == 0)):
+            ws = build_model(wntr, spec, fresh=False)
+            holder = {}
+            hw = spec["net"].get("hw_approx", "default")
+            self.nruns += 2
+            s1 = run_wntr(wntr, ws, hw, holder)
+            ws.reset_initial_values()
+            s2 = run_wntr(wntr, ws, hw, holder)
+            ds = self._diff(s1, s2, spec, "same-simulator")
+            self.count("same-simulator-rerun:" + ("same" if ds is None else "differs"))
+            if s1[0] == "ok" and s2[0] == "raised":
+                self.count("same-simulator-rerun:raises-" + s2[1])
+            if ds is not None:
+                # attribute it to the simulator object only when fresh simulators reproduce (else the cause is reported above)
+                if diff12 is None:
+                    out.append(("rerun-differs-after-reset:same-simulator-object",
+                                "sim.run_sim(); wn.reset_initial_values(); sim.run_sim() with the SAME WNTRSimulator object does not "
+                                "reproduce the first run (a new simulator per run does): " + ds, {}))
         # ---- the API-built model, simulated as built (no reset first), against the same model after reset
         if fresh_diff:
             wf = build_model(wntr, spec, fresh=True)
